@@ -12,6 +12,7 @@ import (
 	authtypes "github.com/cosmos/cosmos-sdk/x/auth/types"
 	transfertypes "github.com/cosmos/ibc-go/v8/modules/apps/transfer/types"
 
+	"orbverif/model"
 	"orbverif/run"
 	"orbverif/spec"
 	"orbverif/world"
@@ -79,6 +80,10 @@ func NewLab(cfg world.Config) (*Lab, error) {
 	if _, err := w.Escrow(w.Channels[0], alice, w.K("bob").Addr, sdk.NewCoin(world.BIG, world.MaxUint256())); err != nil {
 		return nil, fmt.Errorf("escrow ubig: %w", err)
 	}
+	for _, m := range []string{"auth", "bonded_tokens_pool", "not_bonded_tokens_pool", "orbiter/dust_collector"} {
+		model.BlockedRecipients[ModAddr(m)] = true
+	}
+	model.OrbiterAddress = world.OrbiterAddr().String()
 	l := &Lab{W: w}
 	l.Base = w.Branch()
 	if !cfg.SkipHyperlane {
